@@ -169,6 +169,15 @@ func (v *Vue) evaluateNodeAsElement(ctx VueContext, node *html.Node, depth int) 
 		return result, nil
 	}
 
+	// v-once on the branch that was taken: emitted the first time it is reached, skipped afterwards
+	if helpers.HasAttr(node, "v-once") && isChainMember(node) {
+		vSeenID := helpers.GetAttr(node, "v-once-id")
+		if ctx.seen[vSeenID] {
+			return result, nil
+		}
+		ctx.seen[vSeenID] = true
+	}
+
 	// A conditional include is an include: its attributes are props of the component
 	if node.Data == "template" && helpers.HasAttr(node, "include") {
 		return v.evalTemplate(ctx, []*html.Node{node}, ctx.stack.EnvMap(), depth+1)
